@@ -1,5 +1,5 @@
 (* C08 — commit releases exactly the unused part of the pre-authorisation.  Statements only. *)
-From Zvt Require Import Base Length Cp437 Encoding Codec Lookup Client ClientProps SpecCheck.
+From Zvt Require Import Base Length Cp437 Encoding Codec Lookup CanonClass Client ClientProps ClientWire SpecCheck.
 From Zvt.gen Require Tables.
 From Zvt.spec Require Spec.
 Open Scope N_scope.
@@ -28,6 +28,50 @@ Theorem C08_client_constants_agree_with_spec :
   forallb const_ok Spec.client_constants && forallb str_const_ok Spec.client_str_constants && paths_eqb Tables.currencies Spec.currencies_iso4217 = true.
 Proof. exact client_constants_agree_with_spec. Qed.
 
+(* END TO END, for every configuration, open map, token, final amount over all of N, world and time: a commit made while a
+   connection is in use puts, as the very first thing it adds to the log, a request on that connection which the layout's own
+   decoder (= the specification's layout, C03) reads back as EXACTLY: the receipt number recorded for this token, the amount
+   pre-authorised minus the final amount (truncated at zero), payment type 0x40, the configured currency, the reference token —
+   whatever the terminal then answers, and whatever follows the request on the wire *)
+Theorem C08_commit_releases_exactly_the_unused_part : forall cfg st tok amount rn w id pl,
+  assoc_tok tok (s_txs st) = Some rn -> w_cur w = Some id ->
+  rn < 10000 -> c_amount cfg < 10 ^ 12 -> c_currency cfg < 10000 -> token_ok tok pl ->
+  exists req : list N, req <> nil /\
+    first_new_event w (snd (commit_transaction cfg st tok amount w)) (EWrite id (w_now w) req) /\
+    forall r, dec_cmd FUEL (cmd_of "zvt::packets::PartialReversal") (req ++ r) =
+              Ok (partial_reversal_value rn (c_amount cfg - amount) (c_currency cfg) tok, r).
+Proof. exact commit_releases_exactly_the_unused_part. Qed.
+
+(* reservations are always requested for the configured amount and currency, with the caller's token *)
+Theorem C08_begin_reserves_the_configured_amount : forall cfg st tok w id pl,
+  (N.of_nat (length (s_txs st)) =? s_max st) = false -> assoc_tok tok (s_txs st) = None -> w_cur w = Some id ->
+  c_amount cfg < 10 ^ 12 -> c_currency cfg < 10000 -> token_ok tok pl ->
+  exists req : list N, req <> nil /\
+    first_new_event w (snd (begin_transaction cfg st tok w)) (EWrite id (w_now w) req) /\
+    forall r, dec_cmd FUEL (cmd_of "zvt::packets::Reservation") (req ++ r) =
+              Ok (reservation_value (c_amount cfg) (c_currency cfg) tok, r).
+Proof. exact begin_reserves_the_configured_amount. Qed.
+
+(* a cancel reverses exactly that reservation, in the configured currency *)
+Theorem C08_cancel_reverses_that_reservation : forall cfg st tok rn w id,
+  assoc_tok tok (s_txs st) = Some rn -> w_cur w = Some id -> rn < 10000 -> c_currency cfg < 10000 ->
+  exists req : list N, req <> nil /\
+    first_new_event w (snd (cancel_transaction cfg st tok w)) (EWrite id (w_now w) req) /\
+    forall r, dec_cmd FUEL (cmd_of "zvt::packets::PreAuthReversal") (req ++ r) =
+              Ok (preauth_reversal_value (c_currency cfg) rn, r).
+Proof. exact cancel_reverses_that_reservation. Qed.
+
+(* the three requests are inside the class of C01 for EVERY receipt number, amount below 10^12, currency below 10^4 and CP437 token *)
+Theorem C08_requests_in_class : forall rn am cur tok pl,
+  rn < 10000 \/ rn = 65535 -> am < 10 ^ 12 -> cur < 10000 -> token_ok tok pl ->
+  (exists b, canon_cmd (cmd_of "zvt::packets::PartialReversal") (partial_reversal_value rn am cur tok) = Some b) /\
+  (exists b, canon_cmd (cmd_of "zvt::packets::Reservation") (reservation_value am cur tok) = Some b).
+Proof. exact requests_in_class. Qed.
+
+(* non-vacuity: an ASCII token is one of the tokens the theorems speak about *)
+Example C08_ex_token : token_ok [116; 111; 107; 45; 49] [116; 111; 107; 45; 49].
+Proof. exact token_ok_ex. Qed.
+
 Example C08_ex : (2500 - 1000 = 1500) /\ (2500 - 2501 = 0) /\ (2500 - 18446744073709551615 = 0) /\ (0 - 0 = 0).
 Proof. repeat split. Qed.
 
@@ -35,3 +79,7 @@ Print Assumptions C08_commit_amount.
 Print Assumptions C08_summary_from_last_status.
 Print Assumptions C08_commit_abort_reported.
 Print Assumptions C08_client_constants_agree_with_spec.
+Print Assumptions C08_commit_releases_exactly_the_unused_part.
+Print Assumptions C08_begin_reserves_the_configured_amount.
+Print Assumptions C08_cancel_reverses_that_reservation.
+Print Assumptions C08_requests_in_class.
